@@ -29,4 +29,13 @@ class ExprArrayProductModel(ExprDynamicModel):
     
     def accept(self, v):
         v.visit_expr_array_product(self)
+        
+    def val(self):
+        # Current value of the product (used when the list is not being randomized)
+        from vsc.model.value_scalar import ValueScalar
+        n = int(self.arr.size.get_val())
+        ret = 0 if n == 0 else 1
+        for i in range(n):
+            ret *= int(self.arr.field_l[i].get_val())
+        return ValueScalar(ret)
     
